@@ -540,3 +540,26 @@ Proof.
       apply lstrip_noop. rewrite Hstq. apply Hst. reflexivity. }
     rewrite Ht. apply step23_fixpoint; assumption.
 Qed.
+
+(* ---------- enum member names ---------- *)
+
+Lemma app_us_inj (a b : chars) : a ++ ["_"%char] = b ++ ["_"%char] -> a = b.
+Proof. apply app_inv_tail. Qed.
+
+(* two values of one enum get the same member name only in the class/class_ shape *)
+Theorem enum_member_collision a b : enum_member a = enum_member b -> a <> b ->
+  (iskeyword a = true /\ b = a ++ ["_"%char]) \/ (iskeyword b = true /\ a = b ++ ["_"%char]).
+Proof.
+  unfold enum_member, suffix_if. intros H Hne.
+  destruct (iskeyword a) eqn:Ka, (iskeyword b) eqn:Kb.
+  - apply app_us_inj in H. contradiction.
+  - left. split; [reflexivity | symmetry; exact H].
+  - right. split; [reflexivity | exact H].
+  - contradiction.
+Qed.
+
+Theorem enum_member_not_keyword v : iskeyword (enum_member v) = false.
+Proof. apply step2_not_keyword. Qed.
+
+Theorem enum_member_keeps_value v : filter is_alnum (enum_member v) = filter is_alnum v.
+Proof. apply filter_alnum_suffix. Qed.
